@@ -75,6 +75,8 @@ static struct cpu *mk_cpu(struct thread **t, int *pn, int max)
  * every frame below, so these are also their post-state values) ---- */
 int w_st[4];                   /* state of thread i, -1 beyond the list */
 long w_tid[4], w_pid[4], w_gid[4];
+int w_st0, w_st1, w_st2, w_st3;  /* the same states as scalars: native replay takes only scalar witnesses */
+#define BIND_ST_SCALARS (w_st0 == w_st[0] && w_st1 == w_st[1] && w_st2 == w_st[2] && w_st3 == w_st[3])
 #define BIND_THREAD(t, n, i) ( \
 	w_st[i]  == ((i) < (n) ? (int) (t)[i]->state : -1) && \
 	w_tid[i] == ((i) < (n) ? (long) (t)[i]->tid : 0L) && \
@@ -122,7 +124,7 @@ long g_x1type, g_xtid, g_xpid, g_xgid, g_xatype, g_xagid;
 int c_cpu_update(struct cpu *cpu)
 __CPROVER_requires(cpu == g_cpu && CPU_CHANS_CB_OK(cpu) && g_cs_n == 0 && g_cb_calls < 1000u && DIAG_PRE)
 __CPROVER_requires(BIND_COUNTS(cpu, g_t, g_n))
-__CPROVER_requires(w_n == g_n && w_virtual == cpu->is_virtual)
+__CPROVER_requires(w_n == g_n && w_virtual == cpu->is_virtual && BIND_ST_SCALARS)
 __CPROVER_assigns(UPD_FRAME(cpu), UPD_LOG_FRAME, CS_FRAME)
 __CPROVER_ensures(__CPROVER_return_value == 0 || __CPROVER_return_value == -1)
 /* the counters are the number of running / active threads bound to the CPU */
@@ -170,6 +172,10 @@ void h_cpu_update_r(void)
 	g_cpu = mk_cpu(g_t, &g_n, C05_MAXN);
 	chan_cb_t keep = stub_dirty_cb; (void) keep;
 	WITNESS_OFF(chan_set);
+	/* replay witnesses (cr_cpu_update binds none: it is self-contained) */
+	w_n = g_n; w_virtual = g_cpu->is_virtual;
+	w_st0 = g_n > 0 ? (int) g_t[0]->state : -1; w_st1 = g_n > 1 ? (int) g_t[1]->state : -1;
+	w_st2 = g_n > 2 ? (int) g_t[2]->state : -1; w_st3 = g_n > 3 ? (int) g_t[3]->state : -1;
 	int r = cpu_update(g_cpu);
 	if (r == 0) REACH("update accepted");
 	if (r != 0) REACH("update refused");
@@ -337,6 +343,8 @@ void h_cpu_migrate_thread(void)
 	g_f[g_m] = g_th; g_flen = g_m + 1;
 	g_cs_n = 0;
 	chan_cb_t keep = stub_dirty_cb; (void) keep;
+	/* replay witnesses (cr_cpu_migrate_thread binds none: it is self-contained) */
+	w_n = g_n; w_m = g_m; w_sel = g_sel; w_virtual = g_cpu->is_virtual; w_virtual2 = g_cpu2->is_virtual;
 	int r = cpu_migrate_thread(g_cpu, g_th, g_cpu2);
 	if (r == 0) REACH("thread migrated");
 	if (r != 0) REACH("migration refused");
